@@ -1,12 +1,11 @@
 """C06: the C++ and the Python parser accept the same programs and build the same rules."""
 import json
-import os
 
 from lv import core, noise, parsers, syntaxgen, syntaximport
 
 ID = 'C06'
 BUDGET = {'quick': 2400, 'thorough': 60000}     # generated programs; ~4 texts each
-WALL = {'quick': 600, 'thorough': 3600}
+WALL = {'quick': 1800, 'thorough': 7200}     # safety net only (=> inconclusive shards)
 RULE = ('programs of the syntactic grammar generator lv/syntaxgen.py (every statement, '
         'literal, operator and denotation form of docs/syntax.md plus the forms of the '
         'repository\'s own programs); each program yields 4 texts: base print, a layout '
